@@ -93,6 +93,9 @@ TuckerObsWhy(a, o) ==
   ELSE IF o.iters_reported + 1 > a.maxiters THEN "iteration-limit-exceeded"
   ELSE IF \E k \in 1..(Len(o.trunc_fits) - 1) : o.trunc_fits[k + 1] < o.trunc_fits[k] - Tol9 THEN "fit-decreased"
   ELSE IF ~o.data_untouched THEN "data-modified"
+  \* history: a second run from the same starting list may change neither the caller's list nor the first result
+  ELSE IF ~o.start_untouched THEN "starting-guess-modified"
+  ELSE IF ~o.earlier_result_untouched THEN "later-run-changed-an-earlier-result"
   ELSE "ok"
 
 =============================================================================
